@@ -48,6 +48,9 @@ type Repo struct {
 	nInfo      int
 	BeforeGet  func(nth int, r *Repo) // called (locked) before serving the nth Get SDR
 	BeforeInfo func(nth int, r *Repo) // called (locked) before serving the nth Get SDR Repository Info
+	// StampFn, when set, gives the timestamp a modification is stamped with
+	// (from the stamp it replaces); default: a few seconds later.
+	StampFn func(old uint32) uint32
 	// LenientLength makes over-long reads return what is there instead of 0xCA.
 	LenientLength bool
 }
@@ -64,10 +67,16 @@ func (r *Repo) ModifyLocked(recs []SDRRecord, erase, cancelResv bool) {
 	r.Version++
 	r.Recs = recs
 	r.History[r.Version] = append([]SDRRecord(nil), recs...)
+	stamp := func(old uint32) uint32 {
+		if r.StampFn != nil {
+			return r.StampFn(old)
+		}
+		return old + 1 + uint32(r.Version%3)
+	}
 	if erase {
-		r.EraseTS += 1 + uint32(r.Version%3)
+		r.EraseTS = stamp(r.EraseTS)
 	} else {
-		r.AddTS += 1 + uint32(r.Version%3)
+		r.AddTS = stamp(r.AddTS)
 	}
 	if cancelResv {
 		r.Resv += 0x101
